@@ -930,6 +930,47 @@ def substitute(t, mapping, memo=None):
     return memo[t]
 
 
+def _fround(w, x):
+    if w == 64 or x != x or x in (float('inf'), float('-inf')):
+        return fconst(w, x)
+    try:
+        return fconst(w, x)
+    except OverflowError:
+        return fconst(w, float('inf') if x > 0 else float('-inf'))
+
+
+def fold_float(t, memo=None):
+    """partial evaluation: fadd/fsub/fmul/fdiv/fneg/fabs of float constants (binary32 / binary64, round-to-nearest-even;
+    the binary32 results are computed in binary64 and rounded once more, which is exact for these four operations),
+    re-normalising selects and compares on the way up"""
+    memo = memo if memo is not None else {}
+    for x in walk(t):
+        if x in memo:
+            continue
+        if not any(isinstance(a, T) for a in x.args):
+            memo[x] = x
+            continue
+        na = tuple(memo[a] if isinstance(a, T) else a for a in x.args)
+        y = x if all(p is q for p, q in zip(na, x.args)) else make(x.op, na, x.w)
+        if y.op in ('fadd', 'fsub', 'fmul', 'fdiv') and y.w in (32, 64) and all(a.op == 'const' for a in y.args):
+            a, b = fval(y.args[0]), fval(y.args[1])
+            try:
+                if y.op == 'fadd':
+                    r = a + b
+                elif y.op == 'fsub':
+                    r = a - b
+                elif y.op == 'fmul':
+                    r = a * b
+                else:
+                    r = a / b if b != 0 else None
+            except OverflowError:
+                r = None
+            if r is not None:
+                y = _fround(y.w, r)
+        memo[x] = y
+    return memo[t]
+
+
 def diff(a, b, depth=0, path=''):
     """first place where two terms differ structurally: (path, sub-term a, sub-term b)"""
     if a is b:
